@@ -524,7 +524,7 @@ def check_radix_coupled(ck, tu):
                         ok2 = True
             # (3) size accounting: ++size_ unless elements are only moved between buckets
             moving = fn.name.startswith("reorganize")
-            ok3 = moving or any(match.unop(y, ("++",)) and match.this_field(match.unop(y, ("++",))[1]) == "size_" for y in ir.walk(fn.body))
+            ok3 = moving or any((match.field_delta(y, "size_") or ("", 0))[0] == "+" for y in ir.walk(fn.body))
             if ok1 and ok2 and ok3:
                 ck.ok("RADIX-COUPLED", tag + " insert", "set_bit iff bucket was empty, mins_ lowered, size_ %s" % ("unchanged (move)" if moving else "incremented"))
             else:
@@ -556,7 +556,7 @@ def check_radix_coupled(ck, tu):
             okb = bool(cb)
             if c["callee"]["name"] == "pop_back":
                 # clear_bit only if the bucket became empty; --size_
-                okb = okb and any(match.unop(y, ("--",)) and match.this_field(match.unop(y, ("--",))[1]) == "size_" for y in ir.walk(fn.body))
+                okb = okb and any((match.field_delta(y, "size_") or ("", 0))[0] == "-" for y in ir.walk(fn.body))
                 cnd_ok = False
                 for y in cb_here:
                     par = fn.parent(y)
@@ -566,7 +566,7 @@ def check_radix_coupled(ck, tu):
                         cnd_ok = True
                 okb = okb and cnd_ok
             elif c["callee"]["name"] == "swap":
-                okb = okb and any(match.binop(y, ("-=",)) and match.this_field(match.binop(y, ("-=",))[1]) == "size_" for y in ir.walk(fn.body))
+                okb = okb and any((match.field_delta(y, "size_") or ("", 0))[0] == "-" for y in ir.walk(fn.body))
             else:
                 # clear of a drained bucket: its minimum must be reset too
                 okm = False
